@@ -418,6 +418,11 @@ def cancel_once_rule(fx, ck, name="R7.cancel-once", scope_prefix="interpreter::"
                                                     (f.dominates(te[1], b2)) for b2, t2 in f.calls() if b2 != bi)
                 if sets:
                     latches.append((te[1], "latch (Cell<bool>)"))
+            # `if open.remove(&id) { .. }`: taking the id out of a set passes at most once per id
+            if (d.endswith("::remove") and "HashSet" in d) and fx.tys(f.locals[t[3][0]]) == "bool":
+                te = true_edge(f, bi)
+                if te:
+                    latches.append((te[0], "removal from a set of open ids"))
             u = t[1].get("u") or ""
             if u.endswith(("PartialEq::ne", "PartialEq::eq")) and t[2] and any(
                     a[0] in ("c", "m") and any(n == "status" for l in ancestors(f, a[1][0]) for db, si, rv in f.defs().get(l, []) if si != "T"
